@@ -1042,3 +1042,307 @@ pub(super) fn run_templated(linters: &mut Linters, it: &TItem, buf: &mut Buf) {
         buf.direct(&format!("{}:{}", it.cls, v), same, &key, &format!("parse result of a templated file with {} differs from the baseline (shortcuts on)", v), inp);
     }
 }
+
+// ---------------------------------------------------------------- (e) configuration histories
+// The tree of (dialect, input, configuration) must not depend on what the dialect object parsed before -
+// in particular not on the configuration of an earlier parse.  The parser reads one piece of configuration:
+// the boolean switches of `[sqruff:indentation]` (`Parser::indentation_config`, read by `Conditional`), and a
+// long-lived `Dialect` / `Linter` can be used under changing switches (`Parser::new(&dialect, cfg)`,
+// `Linter::config_mut`).  One task = one dialect and one *history*: a reused `Dialect` and a reused `Linter`
+// parse every input under every configuration of a list, the order changing from input to input (history 0
+// starts with everything off, history 1 with everything on, so both directions of every switch happen on an
+// object that has already answered under the other value).  Every tree - meta segments (Indent / Dedent /
+// Implicit) included, `ser_tree` keeps them - is compared with the tree of a dialect instance that has only
+// ever parsed under that configuration; a difference is then confirmed against an instance (dialect, and for
+// the linter entry point a linter built by `FluffConfig::from_source` with the switches in its source) that
+// has never parsed anything.
+pub(super) const SWITCHES: &[&str] =
+    &["indented_joins", "indented_using_on", "indented_on_contents", "indented_ctes", "indented_then", "indented_then_contents", "indented_joins_on", "template_blocks_indent"];
+/// the values of default_config.cfg (indented_joins_on is not a key there)
+const SWITCH_DEFAULTS: [bool; 8] = [false, true, true, false, true, true, false, true];
+
+/// statements that reach every `Conditional` of the grammars (JOIN / USING / ON / CTE / CASE .. THEN), in every dialect
+const CFG_SKELETONS: &[&str] = &[
+    "SELECT a.x\nFROM a\nJOIN b ON a.x = b.x\nJOIN c USING (x)\n",
+    "WITH c AS (SELECT 1 AS x), d AS (SELECT 2 AS x) SELECT * FROM c JOIN d ON c.x = d.x AND c.y = d.y\n",
+    "SELECT CASE WHEN a = 1 THEN 'x' WHEN a = 2 THEN 'y' ELSE 'z' END AS k FROM t\n",
+    "SELECT * FROM a LEFT JOIN b USING (x) INNER JOIN c ON a.x = c.x WHERE a.x IN (SELECT x FROM d JOIN e ON d.x = e.x)\n",
+    "UPDATE t SET a = CASE WHEN b THEN 1 ELSE 2 END\n",
+    "INSERT INTO t WITH c AS (SELECT 1) SELECT * FROM c\n",
+    "SELECT * FROM a CROSS JOIN b JOIN c ON (a.x = c.x)\n",
+    "SELECT 1\n",
+];
+
+pub(super) struct HTask {
+    pub dialect: String,
+    pub history: usize,
+    pub configs: Vec<Vec<bool>>,
+    pub inputs: Vec<(String, String)>,
+    pub seed: u64,
+}
+
+fn cfg_json(c: &[bool]) -> Value {
+    Value::Object(SWITCHES.iter().zip(c).map(|(k, v)| (k.to_string(), json!(v))).collect())
+}
+fn cfg_from_json(v: &Value) -> Vec<bool> {
+    SWITCHES.iter().zip(SWITCH_DEFAULTS).map(|(k, d)| v[*k].as_bool().unwrap_or(d)).collect()
+}
+fn cfg_map(c: &[bool]) -> AHashMap<String, bool> {
+    SWITCHES.iter().zip(c).map(|(k, v)| (k.to_string(), *v)).collect()
+}
+
+pub(super) fn gen_histories(args: &Args) -> Vec<HTask> {
+    let thorough = args.thorough();
+    let mut rng = Rng::new(args.seed ^ 0xc0f1);
+    let n = SWITCHES.len();
+    // everything off first, everything on last (history 1 walks the list backwards on its first input)
+    let mut configs: Vec<Vec<bool>> = vec![vec![false; n], SWITCH_DEFAULTS.to_vec()];
+    for i in 0..n - 1 {
+        let mut c = vec![false; n];
+        c[i] = true;
+        configs.push(c);
+    }
+    for i in 0..n - 1 {
+        let mut c = SWITCH_DEFAULTS.to_vec();
+        c[i] = !c[i];
+        if thorough || i % 2 == (args.seed % 2) as usize {
+            configs.push(c);
+        }
+    }
+    for _ in 0..(if thorough { 12 } else { 2 }) {
+        configs.push((0..n).map(|_| rng.chance(1, 2)).collect());
+    }
+    configs.push(SWITCH_DEFAULTS.iter().map(|b| !b).collect());
+    configs.push(vec![true; n]);
+    let per_history = if thorough { 40 } else { 7 };
+    let files = corpus();
+    let mut tasks = vec![];
+    for d in DIALECTS {
+        let mut cand: Vec<&CorpusFile> = files
+            .iter()
+            .filter(|f| f.dialect == *d && f.text.len() <= 3000)
+            .filter(|f| {
+                let u = f.text.to_ascii_uppercase();
+                ["JOIN", "WITH", "CASE", "USING", " ON "].iter().any(|w| u.contains(w))
+            })
+            .collect();
+        rng.shuffle(&mut cand);
+        cand.truncate(2 * per_history);
+        for h in 0..2 {
+            let mut inputs: Vec<(String, String)> = CFG_SKELETONS.iter().enumerate().map(|(i, s)| (format!("skeleton{}", i), s.to_string())).collect();
+            inputs.extend(cand.iter().skip(h).step_by(2).map(|f| (f.name.clone(), f.text.clone())));
+            tasks.push(HTask { dialect: d.to_string(), history: h, configs: configs.clone(), inputs, seed: rng.next() });
+        }
+    }
+    tasks
+}
+
+fn parse_cfg(d: &Dialect, sql: &str, c: &[bool]) -> Result<String, String> {
+    catch(|| {
+        let tables = Tables::default();
+        let (tokens, _errs) = d.lexer().lex(&tables, StringOrTemplate::String(sql)).map_err(|e| format!("lex error: {:?}", e))?;
+        let parser = sqruff_lib_core::parser::parser::Parser::new(d, cfg_map(c));
+        match parser.parse(&tables, &tokens, None) {
+            Ok(Some(tree)) => {
+                let mut s = String::new();
+                ser_tree(&tree, &mut s);
+                Ok(s)
+            }
+            Ok(None) => Ok("(none)".to_string()),
+            Err(e) => Ok(format!("(parse-error {:?})", e.description)),
+        }
+    })
+    .unwrap_or_else(|p| Err(format!("PANIC {}", p)))
+}
+
+type VLinter = sqruff_lib::core::linter::core::Linter;
+
+fn set_switches(l: &mut VLinter, c: &[bool]) -> bool {
+    use sqruff_lib::core::config::Value as CfgValue;
+    let Some(m) = l.config_mut().raw.get_mut("indentation").and_then(|x| x.as_map_mut()) else {
+        return false;
+    };
+    for (k, v) in SWITCHES.iter().zip(c) {
+        m.insert(k.to_string(), CfgValue::Bool(*v));
+    }
+    true
+}
+/// a linter whose configuration source carries the switches
+fn linter_from_source(dialect: &str, c: &[bool]) -> Result<VLinter, String> {
+    let mut src = format!("[sqruff]\ndialect = {}\nrules = LT01\n\n[sqruff:indentation]\n", dialect);
+    for (k, v) in SWITCHES.iter().zip(c) {
+        src.push_str(&format!("{} = {}\n", k, if *v { "True" } else { "False" }));
+    }
+    catch(|| VLinter::new(sqruff_lib::core::config::FluffConfig::from_source(&src, None), None, None, true))
+}
+
+fn text_of(r: &Result<String, String>) -> &str {
+    match r {
+        Ok(s) | Err(s) => s,
+    }
+}
+
+struct Hist {
+    dialect: Dialect,
+    linter: Option<VLinter>,
+    /// (input, configuration) of the first and of the latest parse of the two reused objects
+    first: Option<(String, Vec<bool>)>,
+    prev: Option<(String, Vec<bool>)>,
+}
+
+fn history_json(h: &Hist) -> Value {
+    let mut v = vec![];
+    for e in [&h.first, &h.prev].into_iter().flatten() {
+        let j = json!({"sql": e.0, "config": cfg_json(&e.1)});
+        if !v.contains(&j) {
+            v.push(j);
+        }
+    }
+    json!(v)
+}
+
+/// Compare one parse of a reused object with the reference; on a difference consult an instance that has never parsed.
+#[allow(clippy::too_many_arguments)]
+fn judge(entry: &str, dname: &str, name: &str, sql: &str, c: &[bool], got: &Result<String, String>, want: &Result<String, String>, hist: &Value, listed: &mut usize, buf: &mut Buf) {
+    let cls = format!("config-history:{}", entry);
+    if got == want {
+        buf.direct(&cls, true, "", "", Value::Null);
+        return;
+    }
+    let fresh = if entry == "linter" {
+        match linter_from_source(dname, c) {
+            Ok(l) => parse_templated(&l, sql),
+            Err(e) => Err(format!("PANIC {}", e)),
+        }
+    } else {
+        parse_cfg(&crate::c14::dialect_of(dname), sql, c)
+    };
+    if &fresh == got {
+        if entry == "linter" {
+            // reused and never-used linter agree with each other but not with Parser::new on a dialect that only saw these
+            // switches: something outside (dialect, input, switches) decides the tree - e.g. an answer remembered process-wide
+            buf.count("config_history_linter_vs_parser_entry_differences", 1);
+            if *listed < 4 {
+                *listed += 1;
+                let key = format!("config-history:entry-points:{}:{:016x}", dname, h64(&format!("{}{:?}", sql, c)));
+                buf.direct("config-history:entry-points", false, &key, "a never-used Linter built with these indentation switches (and the reused one) gives another tree than Parser::new with the same switches on a dialect instance that only ever saw them: something besides dialect, input and switches decides the tree", json!({"kind": "config-history", "entry": "linter", "dialect": dname, "name": name, "sql": sql, "config": cfg_json(c), "history": hist, "linter": outcome(got), "parser": outcome(want), "first_difference": super::first_diff(text_of(want), text_of(got))}));
+            }
+            return;
+        }
+        // the instance that only ever parsed under this configuration is the odd one: repeated parses on one instance
+        buf.count("config_history_differences", 1);
+        if *listed < 4 {
+            *listed += 1;
+            let key = format!("config-history:same-config-instance:{}:{:016x}", dname, h64(&format!("{}{:?}", sql, c)));
+            buf.direct("config-history:same-config-instance", false, &key, "a dialect instance that has parsed other inputs under the SAME configuration gives another tree (meta segments included) than an instance that has never parsed", json!({"kind": "config-history", "entry": "parser", "dialect": dname, "name": name, "sql": sql, "config": cfg_json(c), "history": [], "reused": outcome(want), "fresh": outcome(&fresh), "first_difference": super::first_diff(text_of(&fresh), text_of(want))}));
+        }
+        return;
+    }
+    buf.count("config_history_differences", 1);
+    if *listed < 4 {
+        *listed += 1;
+        let key = format!("config-history:{}:{}:{:016x}", entry, dname, h64(&format!("{}{:?}", sql, c)));
+        let what = if entry == "linter" { "a Linter reused after Linter::config_mut changed [sqruff:indentation] gives another tree (meta segments included) than a Linter built with that configuration" } else { "a Dialect reused by Parser::new(&dialect, indentation switches) after parses under other switches gives another tree (meta segments included) than a fresh dialect instance" };
+        buf.direct(&cls, false, &key, what, json!({"kind": "config-history", "entry": entry, "dialect": dname, "name": name, "sql": sql, "config": cfg_json(c), "history": hist, "reused": outcome(got), "fresh": outcome(&fresh), "first_difference": super::first_diff(text_of(&fresh), text_of(got))}));
+    }
+}
+
+pub(super) fn run_history(t: &HTask, buf: &mut Buf) {
+    verif_switches::set(false, false);
+    let watched = |entry: &str, sql: &str, c: &[bool], f: &dyn Fn() -> Result<String, String>| {
+        watch_set(json!({"kind": "config-history", "entry": entry, "variant": entry, "dialect": t.dialect, "sql": sql, "config": cfg_json(c), "history": [], "cpu_limit_s": 30}));
+        let r = f();
+        watch_clear();
+        r
+    };
+    // reference: one dialect instance per configuration, never used under another one
+    let mut reference: Vec<Vec<Result<String, String>>> = vec![];
+    for c in &t.configs {
+        let d = crate::c14::dialect_of(&t.dialect);
+        reference.push(t.inputs.iter().map(|(_, sql)| watched("reference", sql, c, &|| parse_cfg(&d, sql, c))).collect());
+    }
+    let mut sensitive = 0;
+    for j in 0..t.inputs.len() {
+        let distinct: HashSet<&Result<String, String>> = reference.iter().map(|r| &r[j]).collect();
+        if distinct.len() > 1 {
+            sensitive += 1;
+        }
+        if t.history == 0 && j < CFG_SKELETONS.len() {
+            buf.count("config_history_distinct_trees_of_the_skeletons", distinct.len());
+        }
+    }
+    // the switches must reach the parser at all: a process-wide remembered answer would make every instance agree
+    if t.history == 0 {
+        let (off, on) = (&reference[0], &reference[t.configs.len() - 1]);
+        let moved = (0..CFG_SKELETONS.len().min(t.inputs.len())).filter(|&j| off[j] != on[j]).count();
+        buf.hyp("indentation_switches_change_the_tree_of_the_skeleton_statements(all off vs all on)", "blocking", moved >= 5, json!({"dialect": t.dialect, "skeletons_with_different_trees": moved, "of": CFG_SKELETONS.len()}));
+    }
+    buf.count("config_history_inputs", t.inputs.len());
+    buf.count("inputs_config-history", t.inputs.len());
+    buf.count("config_history_inputs_whose_tree_depends_on_the_switches", sensitive);
+    buf.count("nontrivial_inputs", sensitive);
+    buf.count("config_history_configurations", if t.history == 0 && t.dialect == "ansi" { t.configs.len() } else { 0 });
+    let mut h = Hist { dialect: crate::c14::dialect_of(&t.dialect), linter: catch(|| c04::mk_linter(&t.dialect, "LT01", None)).ok(), first: None, prev: None };
+    if h.linter.is_none() {
+        buf.count("config_history_tasks_without_a_linter", 1);
+    }
+    let mut rng = Rng::new(t.seed);
+    let (mut listed_p, mut listed_l) = (0usize, 0usize);
+    for (j, (name, sql)) in t.inputs.iter().enumerate() {
+        let mut order: Vec<usize> = (0..t.configs.len()).collect();
+        if j == 0 {
+            if t.history == 1 {
+                order.reverse();
+            }
+        } else {
+            rng.shuffle(&mut order);
+        }
+        for &ci in &order {
+            let c = &t.configs[ci];
+            let hist = history_json(&h);
+            let got = watched("parser", sql, c, &|| parse_cfg(&h.dialect, sql, c));
+            judge("parser", &t.dialect, name, sql, c, &got, &reference[ci][j], &hist, &mut listed_p, buf);
+            if let Some(l) = h.linter.as_mut() {
+                if set_switches(l, c) {
+                    let l = &*l;
+                    let got = watched("linter", sql, c, &|| parse_templated(l, sql));
+                    judge("linter", &t.dialect, name, sql, c, &got, &reference[ci][j], &hist, &mut listed_l, buf);
+                }
+            }
+            if h.first.is_none() {
+                h.first = Some((sql.clone(), c.clone()));
+            }
+            h.prev = Some((sql.clone(), c.clone()));
+        }
+    }
+}
+
+/// Replay of one reported difference: a never-used object parses the recorded history, then the input.
+pub(super) fn replay_history(v: &Value, buf: &mut Buf) {
+    verif_switches::set(false, false);
+    let dname = v["dialect"].as_str().unwrap_or("ansi");
+    let sql = v["sql"].as_str().unwrap_or("");
+    let c = cfg_from_json(&v["config"]);
+    let entry = v["entry"].as_str().unwrap_or("parser");
+    let hist: Vec<(String, Vec<bool>)> = v["history"].as_array().map(|a| a.iter().map(|e| (e["sql"].as_str().unwrap_or("").to_string(), cfg_from_json(&e["config"]))).collect()).unwrap_or_default();
+    let want = parse_cfg(&crate::c14::dialect_of(dname), sql, &c);
+    let mut listed = 0;
+    let got = if entry == "linter" {
+        let Ok(mut l) = catch(|| c04::mk_linter(dname, "LT01", None)) else {
+            return;
+        };
+        for (s, hc) in &hist {
+            set_switches(&mut l, hc);
+            let _ = parse_templated(&l, s);
+        }
+        set_switches(&mut l, &c);
+        parse_templated(&l, sql)
+    } else {
+        let d = crate::c14::dialect_of(dname);
+        for (s, hc) in &hist {
+            let _ = parse_cfg(&d, s, hc);
+        }
+        parse_cfg(&d, sql, &c)
+    };
+    judge(entry, dname, "replay", sql, &c, &got, &want, &v["history"], &mut listed, buf);
+}
